@@ -357,6 +357,13 @@ func driveNum(plan []M, out *Out, _ []string) {
 						if r := typ.Coal(ss...); r != "" {
 							e["r"], _ = strconv.Atoi(r)
 						}
+					} else if kind == "zeroer" {
+						// a type with an IsZero method that says "zero" for the non-zero value {7}: Coal goes by the zero VALUE
+						zs := make([]zeroer, len(v))
+						for i, x := range v {
+							zs[i] = zeroer{x}
+						}
+						e["r"] = typ.Coal(zs...).v
 					} else {
 						e["r"] = typ.Coal(v...)
 					}
